@@ -19,6 +19,31 @@ func init() {
 	verifHarnesses["VerifC03_Names"] = VerifC03_Names
 	verifHarnesses["VerifC03_EchoCompact"] = VerifC03_EchoCompact
 	verifHarnesses["VerifC03_ConcurrentCalls"] = VerifC03_ConcurrentCalls
+	verifHarnesses["VerifC03_OversizeReply"] = VerifC03_OversizeReply
+}
+
+// A server whose reply buffer is bounded: a result that does not fit is reported to
+// the caller as RESPONSE_TOO_LARGE, and every later call on the same processor (same
+// or another method, inherited ones included) still observes its handler's outcome -
+// the oversize reply must not leave the processor's shared write lock behind.
+func VerifC03_OversizeReply() {
+	h := &verifHandler{outcome: verifValue, ret: NewInner()}
+	big := "0123456789012345678901234567890123456789012345678901234567890123456789012345678901234567890123456789012345678901234567890123456789"
+	big = big + big + big // 390 bytes
+	h.ret.B = &big
+	client, loop := verifSetup(h)
+	loop.limit = uint(180 + 40*verifChoice(5)) // 180..340: admits the error reply and small replies, not the big one
+	_, err := client.Echo(frugal.NewFContext("c1"), NewInner(), 1)
+	te, ok := err.(thrift.TTransportException)
+	verifAssert(ok && te.TypeId() == frugal.TRANSPORT_EXCEPTION_RESPONSE_TOO_LARGE, "a reply that does not fit the server's buffer reaches the caller as RESPONSE_TOO_LARGE")
+	verifAssert(h.calls == 1, "the handler ran once")
+	// later calls
+	small := "x"
+	h.ret.B = &small
+	got, err := client.Echo(frugal.NewFContext("c2"), NewInner(), 2)
+	verifAssert(err == nil && got != nil && got.B != nil && *got.B == "x", "the next call on the same method observes its handler's value")
+	verifAssert(client.Ping(frugal.NewFContext("c3")) == nil && h.calls == 3, "and so does a call to another method of the processor")
+	verifReach("end")
 }
 
 // two goroutines call through one generated client: each caller observes the value
@@ -102,6 +127,7 @@ func VerifC03_Names() {
 
 // verifLoop hands every request frame to the processor and returns what it wrote.
 type verifLoop struct {
+	limit    uint // size limit of the server's reply buffer (0 = none), as the NATS and HTTP servers have one
 	slow     bool // look at the payload only after a scheduling point
 	proc     frugal.FProcessor
 	pf       *frugal.FProtocolFactory
@@ -114,7 +140,7 @@ func (l *verifLoop) run(payload []byte) (*frugal.TMemoryOutputBuffer, error) {
 	if l.slow {
 		verifYield("transport waits for the connection")
 	}
-	out := frugal.NewTMemoryOutputBuffer(0)
+	out := frugal.NewTMemoryOutputBuffer(l.limit)
 	in := &thrift.TMemoryBuffer{Buffer: bytes.NewBuffer(payload[4:])}
 	err := l.proc.Process(l.pf.GetProtocol(in), l.pf.GetProtocol(out))
 	return out, err
